@@ -2,6 +2,8 @@
 #include "witness.hpp"
 #include <amgcl/detail/sort_row.hpp>
 #include <amgcl/detail/spgemm.hpp>
+#include <amgcl/value_type/static_matrix.hpp>
+#include <amgcl/adapter/crs_tuple.hpp>
 #include <csignal>
 #include <unistd.h>
 using namespace amgcl;
@@ -190,8 +192,49 @@ static int r_inductive_only(const char *what) {
 }
 static bool close_to(double a, double b) { return std::fabs(a - b) <= 1e-12 * (std::fabs(a) + std::fabs(b)) || a == b; }
 
+
+// the same pattern with 2x2 block values (the unit is proved in the UF model, i.e. for every value type): for blocks
+// norm(inverse(d)) != 1 / norm(d), non-commuting products -- oracle with hand-written Frobenius norm and 2x2 inverse
+static int gershgorin_blocks(const Crs &A, bool scale, int pi) {
+    typedef amgcl::static_matrix<double, 2, 2> B;
+    size_t n = A.nrows;
+    std::vector<ptrdiff_t> ptr(A.ptr, A.ptr + n + 1), col(A.col, A.col + A.ptr[n]);
+    std::vector<B> val(A.ptr[n]);
+    for (size_t i = 0; i < n; ++i) for (ptrdiff_t j = A.ptr[i]; j < A.ptr[i + 1]; ++j) {
+        double v = A.val[j];
+        val[j](0, 0) = v; val[j](0, 1) = 0.25 * (j + 1); val[j](1, 0) = -0.5; val[j](1, 1) = 3 * v + ((size_t)A.col[j] == i ? 4.0 : 0.0);
+    }
+    auto fro = [](const B &b) { return std::sqrt(b(0,0)*b(0,0) + b(0,1)*b(0,1) + b(1,0)*b(1,0) + b(1,1)*b(1,1)); };
+    double expect = 0;
+    for (size_t i = 0; i < n; ++i) {
+        double s = 0, dn = 1;
+        for (ptrdiff_t j = ptr[i]; j < ptr[i + 1]; ++j) {
+            s += fro(val[j]);
+            if ((size_t)col[j] == i) {
+                const B &d = val[j]; double det = d(0,0) * d(1,1) - d(0,1) * d(1,0);
+                if (std::fabs(det) < 1e-9) { std::cout << "block lift: singular diagonal block, skipped" << std::endl; return 0; }
+                B inv; inv(0,0) = d(1,1) / det; inv(0,1) = -d(0,1) / det; inv(1,0) = -d(1,0) / det; inv(1,1) = d(0,0) / det;
+                dn = fro(inv);
+            }
+        }
+        if (scale) s *= dn;
+        expect = std::max(expect, s);
+    }
+    backend::crs<B> Ab(std::make_tuple(n, ptr, col, val));
+    double got = scale ? backend::spectral_radius<true>(Ab, pi) : backend::spectral_radius<false>(Ab, pi);
+    std::cout << "2x2 block lift: spectral_radius = " << got << " expected (Gershgorin, Frobenius block norm, norm of the INVERSE diagonal block) " << expect << std::endl;
+    if (std::fabs(got - expect) > 1e-9 * (1 + std::fabs(expect))) FAIL("spectral_radius<" << (scale ? "true" : "false") << "> on 2x2 block values = " << got << " but max_i sum_j norm(a_ij) * norm(inverse(a_ii)) = " << expect);
+    return 0;
+}
+
 static int r_gershgorin(const Witness &w) {
-    if (!w.has("w_A_nrows")) return r_inductive_only("spectral_radius");
+    if (!w.has("w_A_nrows")) {
+        // inductive unit: a failed proof obligation has no concrete input; run the block lift of a fixed sample (both scalings)
+        Crs S; S.set_size(2, 2, true); S.ptr[0] = 0; S.ptr[1] = 2; S.ptr[2] = 4; S.set_nonzeros(4);
+        S.col[0] = 0; S.col[1] = 1; S.col[2] = 1; S.col[3] = 0; S.val[0] = 2; S.val[1] = -1; S.val[2] = 3; S.val[3] = -1;
+        int rc = gershgorin_blocks(S, true, 0); if (!rc) rc = gershgorin_blocks(S, false, 0);
+        return rc ? rc : 3;
+    }
     auto A = crs_from(w, "A");
     bool scale = w.num("w_scale") != 0; int pi = (int)w.num("w_power_iters");
     tokens_to_values(*A);
@@ -208,7 +251,7 @@ static int r_gershgorin(const Witness &w) {
     double got = scale ? backend::spectral_radius<true>(*A, pi) : backend::spectral_radius<false>(*A, pi);
     std::cout << "spectral_radius = " << got << " expected (Gershgorin) " << expect << std::endl;
     if (!close_to(got, expect)) FAIL("spectral_radius<" << (scale ? "true" : "false") << ">(A, " << pi << ") = " << got << " but max row sum = " << expect);
-    return 0;
+    return gershgorin_blocks(*A, scale, pi);
 }
 
 
